@@ -941,7 +941,9 @@ class CacheSim(object):
                 return                       # someone else touched the path or the inode
         if pickle_ok(node.data):
             return                           # complete pickle: it was stale or raced, not broken
-        if node.mtime_ns < src.mtime_ns:
+        if node.mtime_ns <= src.mtime_ns:
+            # older than its source: ignoring it is right.  Exactly as old: C18 leaves open whether
+            # that counts as fresh (>= and > both never use an *older* entry), so nothing is owed
             self.probe('broken_but_stale_ignored')
             return
         self.probe('broken_fresh_entry_loaded')
